@@ -265,7 +265,7 @@ theorem gen_crop_to_pointcloud_spec (pix : NDArr α) (C : Nat) (shape : List Nat
   exact crop_to_pointcloud_spec pix C shape pts b constrain zero lms hne hshape hwf hd hpos
 
 /-- PROPERTY (`crop_to_true_mask`, about the TRANSLATED wrapper, `bounds_true` and `true_indices`): the same
-statement for the box around the true pixels of the mask -/
+statement - refusal, shape, landmarks AND the pixel clause - for the box around the true pixels of the mask -/
 theorem gen_crop_to_true_mask_spec (pix : NDArr α) (C : Nat) (shape : List Nat) (mask : NDArr Bool)
     (b : Int) (constrain rt : Bool) (zero : α) (lms : List (List Rat)) (hne : natPts (trueIndices mask) ≠ [])
     (hshape : pix.shape = C :: shape) (hwf : pix.WF) (hd : pcDims (natPts (trueIndices mask)) = shape.length)
@@ -275,13 +275,23 @@ theorem gen_crop_to_true_mask_spec (pix : NDArr α) (C : Nat) (shape : List Nat)
     (¬(constrain = false ∧ ¬ ∀ a ∈ pcAxes shape (natPts (trueIndices mask)) (b : Rat), a.inside) →
       ∃ out, genCropToTrueMask pix lms zero mask b constrain rt =
           .ok (out, cropLandmarks (pcAxes shape (natPts (trueIndices mask)) (b : Rat)) lms) ∧
-        out.shape = C :: (pcAxes shape (natPts (trueIndices mask)) (b : Rat)).map Axis.len) := by
+        out.shape = C :: (pcAxes shape (natPts (trueIndices mask)) (b : Rat)).map Axis.len ∧
+        ∀ c p, c < C → inRange ((pcAxes shape (natPts (trueIndices mask)) (b : Rat)).map Axis.len) p = true →
+          out.get? (c :: p) = pix.get? (c :: shiftIdx p (pcAxes shape (natPts (trueIndices mask)) (b : Rat))) ∧
+          (out.get? (c :: p)).isSome = true) := by
   rw [genCropToTrueMask_model pix C shape hshape hwf]
-  obtain ⟨h1, h2⟩ := crop_to_pointcloud_spec pix C shape (natPts (trueIndices mask)) (b : Rat) constrain zero lms hne
+  exact crop_to_pointcloud_spec pix C shape (natPts (trueIndices mask)) (b : Rat) constrain zero lms hne
     hshape hwf hd hpos
-  refine ⟨h1, fun hn => ?_⟩
-  obtain ⟨out, e1, e2, _⟩ := h2 hn
-  exact ⟨out, e1, e2⟩
+
+theorem extractSlice_shape (pix : NDArr α) (C H W : Nat) (hshape : pix.shape = [C, H, W]) (centres : List Pt)
+    (ph pw : Nat) (offsets : Option (List Pt)) (cval : α) (out : NDArr α)
+    (h : extractSlice pix centres ph pw offsets cval = .ok out) :
+    out.shape = [centres.length, (offsets.getD [(0, 0)]).length, C, ph, pw] := by
+  unfold extractSlice at h
+  simp only [hshape] at h
+  split at h
+  · cases h; rfl
+  · cases h
 
 /-- PROPERTY (patch shape and content, slicing path, about the TRANSLATED loops): away from rounding ties the
 translated `extract_patches_with_slice` never raises, returns shape `(centres, offsets, C, ph, pw)` for every channel
@@ -300,6 +310,20 @@ theorem gen_slicing_patch_layout (pix : NDArr α) (C H W : Nat) (hshape : pix.sh
   rw [genExtractPatchesWithSlice_model]
   exact slicing_patch_layout pix C H W hshape centres ps.1 ps.2 offsets cval hnt
 
+/-- PROPERTY (patch shape and content, slicing path, EVERY centre, about the TRANSLATED loops): rounding ties
+included, the translated `extract_patches_with_slice` never raises and returns shape `(centres, offsets, C, ph, pw)`
+for every channel count; every element is the source pixel of its window position, the fill value outside -/
+theorem gen_slicing_patch_layout_all (pix : NDArr α) (C H W : Nat) (hshape : pix.shape = [C, H, W])
+    (centres : List Pt) (ps : Nat × Nat) (offsets : Option (List Pt)) (cval : α) :
+    ∃ out, genExtractPatchesWithSlice pix centres ps offsets cval = .ok out ∧
+      out.shape = [centres.length, (offsets.getD [(0, 0)]).length, C, ps.1, ps.2] ∧
+      ∀ i j c r q, inRange [centres.length, (offsets.getD [(0, 0)]).length, C, ps.1, ps.2] [i, j, c, r, q] = true →
+        out.get? [i, j, c, r, q] =
+          some (pixAt pix c ((sliceLo ps.1 ps.2 (getPt centres i) (getPt (offsets.getD [(0, 0)]) j)).1 + r)
+                            ((sliceLo ps.1 ps.2 (getPt centres i) (getPt (offsets.getD [(0, 0)]) j)).2 + q) cval) := by
+  rw [genExtractPatchesWithSlice_model]
+  exact slicing_patch_layout_all pix C H W hshape centres ps.1 ps.2 offsets cval
+
 /-- PROPERTY (patch shape, sampling path, about the TRANSLATED function): for every channel count, order and mode
 the translated `extract_patches_by_sampling` returns shape `(centres, offsets, C, ph, pw)` and element
 `(i, j, c, r, q)` is the sample of channel `c` at `centre_i + offset_j + grid(r, q)` -/
@@ -314,7 +338,8 @@ theorem gen_sampling_patch_layout (pix : NDArr α) (C H W : Nat) (hshape : pix.s
   rw [genExtractPatchesBySampling_model pix C H W hshape]
   exact sampling_patch_layout (sampler order mode) C ps.1 ps.2 centres offsets cval
 
-/-- the order-0 / constant-mode sampler of the model as a sampler argument -/
+/-- the order-0 / constant-mode sampler of the model as a sampler argument (it ignores the order and mode it is
+handed: the theorems below instantiate them at `order = 0`, `mode = constant`) -/
 def sampler0c (pix : NDArr α) (cval : α) : Nat → Mode → Nat → Pt → α :=
   fun _ _ c pt => sample0c pix c [pt.1, pt.2] cval
 
@@ -322,9 +347,9 @@ def sampler0c (pix : NDArr α) (cval : α) : Nat → Mode → Nat → Pt → α 
 `extract_patches_with_slice` (two nested loops of slice assignments) and the translated `extract_patches_by_sampling`
 with the order-0 constant-mode sampler return the same shape and the same pixels -/
 theorem gen_slice_eq_sampling_at_integers (pix : NDArr α) (C H W : Nat) (hshape : pix.shape = [C, H, W])
-    (cz : List (Int × Int)) (ps : Nat × Nat) (oz : Option (List (Int × Int))) (order : Nat) (mode : Mode) (cval : α) :
+    (cz : List (Int × Int)) (ps : Nat × Nat) (oz : Option (List (Int × Int))) (cval : α) :
     ∃ a b, genExtractPatchesWithSlice pix (cz.map toPt) ps (oz.map (List.map toPt)) cval = .ok a ∧
-      genExtractPatchesBySampling pix (cz.map toPt) ps (oz.map (List.map toPt)) (sampler0c pix cval) order mode cval
+      genExtractPatchesBySampling pix (cz.map toPt) ps (oz.map (List.map toPt)) (sampler0c pix cval) 0 Mode.constant cval
         = .ok b ∧
       a.shape = b.shape ∧ a.shape = [cz.length, (offsZ oz).length, C, ps.1, ps.2] ∧
       ∀ i j c r q, inRange a.shape [i, j, c, r, q] = true → a.get? [i, j, c, r, q] = b.get? [i, j, c, r, q] := by
@@ -336,9 +361,9 @@ theorem gen_slice_eq_sampling_at_integers (pix : NDArr α) (C H W : Nat) (hshape
 /-- PROPERTY (fill, about the TRANSLATED functions): at integer centres and offsets every patch pixel whose source
 location lies outside the image is the fill value, on both translated paths -/
 theorem gen_outside_is_fill (pix : NDArr α) (C H W : Nat) (hshape : pix.shape = [C, H, W])
-    (cz : List (Int × Int)) (ps : Nat × Nat) (oz : Option (List (Int × Int))) (order : Nat) (mode : Mode) (cval : α) :
+    (cz : List (Int × Int)) (ps : Nat × Nat) (oz : Option (List (Int × Int))) (cval : α) :
     ∃ a b, genExtractPatchesWithSlice pix (cz.map toPt) ps (oz.map (List.map toPt)) cval = .ok a ∧
-      genExtractPatchesBySampling pix (cz.map toPt) ps (oz.map (List.map toPt)) (sampler0c pix cval) order mode cval
+      genExtractPatchesBySampling pix (cz.map toPt) ps (oz.map (List.map toPt)) (sampler0c pix cval) 0 Mode.constant cval
         = .ok b ∧
       ∀ i j c r q, inRange [cz.length, (offsZ oz).length, C, ps.1, ps.2] [i, j, c, r, q] = true →
         (let w := winLo ps.1 ps.2 (cz.getD i (0, 0)) ((offsZ oz).getD j (0, 0))
@@ -348,16 +373,6 @@ theorem gen_outside_is_fill (pix : NDArr α) (C H W : Nat) (hshape : pix.shape =
   have h := outside_is_fill pix C H W hshape cz ps.1 ps.2 oz cval
   simp only [extractSampling0c, hshape] at h
   exact h
-
-theorem extractSlice_shape (pix : NDArr α) (C H W : Nat) (hshape : pix.shape = [C, H, W]) (centres : List Pt)
-    (ph pw : Nat) (offsets : Option (List Pt)) (cval : α) (out : NDArr α)
-    (h : extractSlice pix centres ph pw offsets cval = .ok out) :
-    out.shape = [centres.length, (offsets.getD [(0, 0)]).length, C, ph, pw] := by
-  unfold extractSlice at h
-  simp only [hshape] at h
-  split at h
-  · cases h; rfl
-  · cases h
 
 /-- PROPERTY (round trip, about the TRANSLATED loops): patches extracted by the translated
 `extract_patches_with_slice` at integer centres whose windows lie inside the image and written back by the
@@ -388,6 +403,39 @@ theorem gen_extractPatches_shape (sampler : Nat → Mode → Nat → Pt → α) 
       out.shape = [centres.length, (offsets.getD [(0, 0)]).length, C, ps.1, ps.2] := by
   obtain ⟨out, h1, h2⟩ := extractPatches_shape sampler pix C H W hshape centres ps.1 ps.2 offsets order mode cval hnt
   exact ⟨out, by rw [genExtractPatches_model pix C H W hshape, h1]; rfl, h2⟩
+
+/-- PROPERTY (patch shape through the TRANSLATED public entry point, EVERY centre): for every channel count, order,
+mode and centre (rounding ties included) the translated `Image.extract_patches` returns one array of shape
+`(centres, offsets, C, ph, pw)` -/
+theorem gen_extractPatches_shape_all (sampler : Nat → Mode → Nat → Pt → α) (pix : NDArr α)
+    (C H W : Nat) (hshape : pix.shape = [C, H, W])
+    (centres : List Pt) (ps : Nat × Nat) (offsets : Option (List Pt)) (order : Nat) (mode : Mode) (cval : α) :
+    ∃ out, genExtractPatches pix sampler centres ps offsets true order mode cval = .ok (.single out) ∧
+      out.shape = [centres.length, (offsets.getD [(0, 0)]).length, C, ps.1, ps.2] := by
+  obtain ⟨out, h1, h2⟩ := extractPatches_shape_all sampler pix C H W hshape centres ps.1 ps.2 offsets order mode cval
+  exact ⟨out, by rw [genExtractPatches_model pix C H W hshape, h1]; rfl, h2⟩
+
+/-- PROPERTY (round trip on a DAMAGED image, about the TRANSLATED loops): patches extracted by the translated
+`extract_patches_with_slice` at integer centres whose windows lie inside the image and written by the translated
+`set_patches` into ANY image `cur` of the same shape give `pix` on every written window and `cur` elsewhere - a
+`set_patches` that wrote nothing, or elsewhere, does not satisfy this -/
+theorem gen_set_extract_restores_damaged (pix cur : NDArr α) (C H W : Nat) (hshape : pix.shape = [C, H, W])
+    (hwf : pix.WF) (hcs : cur.shape = [C, H, W]) (hcw : cur.WF) (cz : List (Int × Int)) (ps : Nat × Nat)
+    (oz : List (Int × Int)) (oi : Nat) (hoi : oi < oz.length) (cval : α)
+    (hint : ∀ c ∈ cz, Interior H W ps.1 ps.2 c (oz.getD oi (0, 0))) :
+    ∃ patches, genExtractPatchesWithSlice pix (cz.map toPt) ps (some (oz.map toPt)) cval = .ok patches ∧
+      ∃ out, genSetPatches cval patches (.ok cur) (cz.map toPt) (oz.getD oi (0, 0)) oi = .ok out ∧
+        out.shape = [C, H, W] ∧
+        ∀ c r q, c < C → r < H → q < W →
+          out.get? [c, r, q] =
+            if cz.any (fun z => inWin ps.1 ps.2 (winLo ps.1 ps.2 z (oz.getD oi (0, 0))) r q) then pix.get? [c, r, q]
+            else cur.get? [c, r, q] := by
+  obtain ⟨patches, h1, out, h2, h3, h4⟩ :=
+    set_extract_restores_damaged .repaired pix cur C H W hshape hwf hcs hcw cz ps.1 ps.2 oz oi hoi cval hint
+  refine ⟨patches, by rw [genExtractPatchesWithSlice_model]; exact h1, out, ?_, h3, h4⟩
+  rw [genSetPatches_model cval patches cur _ _ _ _ _
+    (extractSlice_shape pix C H W hshape (cz.map toPt) ps.1 ps.2 (some (oz.map toPt)) cval patches h1)]
+  exact h2
 
 /-- PROPERTY (round trip through the TRANSLATED public entry points and their defaults): patches taken by the
 translated `extract_patches_around_landmarks()` at integer landmarks whose windows lie inside the image - as one
@@ -441,6 +489,9 @@ example : genCenteredPatch (3, 2) = .ok [(-1, -1), (-1, 0), (0, -1), (0, 0), (1,
 example : ((genExtractPatchesWithSlice exImg [(2, 3), (0, 0)] (3, 2) none (-1)).toOption.map fun p => (p.shape, p.data)) =
     some ([2, 1, 2, 3, 2], [9, 10, 16, 17, 23, 24, 51, 52, 58, 59, 65, 66,
                             -1, -1, -1, 0, -1, 7, -1, -1, -1, 42, -1, 49]) := by decide +kernel
+-- a half-integer centre with an odd extent (rounding tie): a full window, as the sampling path of order 1 gives
+example : ((genExtractPatchesWithSlice exImg [(5/2, 3)] (3, 2) none 0).toOption.map fun p => (p.shape, p.data)) =
+    some ([1, 1, 2, 3, 2], [16, 17, 23, 24, 30, 31, 58, 59, 65, 66, 72, 73]) := by decide +kernel
 example : genExtractPatchesWithSlice exImg [(2, 3), (0, 0)] (3, 2) none (-1) =
     genExtractPatchesBySampling exImg [(2, 3), (0, 0)] (3, 2) none (sampler0c exImg (-1)) 0 Mode.constant (-1) := by
   decide +kernel
